@@ -5,6 +5,7 @@
 -/
 import Nlmodel.Model.Pipeline
 import Nlmodel.Proofs.Lemmas.SimHOps
+import Nlmodel.Proofs.Lemmas.Utf8All
 namespace Nl
 namespace C13
 open Spec
@@ -140,6 +141,67 @@ theorem C13_index_write_agrees {s0 : VM} {CS : List Const} {Γ : Sim.Gam} {μ : 
         SimH.Grow μ st m.heap μ st' m'.heap ∧ SimH.VRh μ st' m'.heap r mr
     | .error e => indexSet ma mb mc m = .error e :=
   SimH.indexSet_rel hinv a b c ma mb mc ha hb hc
+
+/-! ### by character, not byte: the UTF-8 byte-level operations of `vm.rs` refine the model's character lists
+
+The model keeps a text as a list of code points; `vm.rs` works on UTF-8 bytes with `chars().count()`,
+`chars().nth(i)`, `char_indices().nth(i)` + `len_utf8()` and `replace_range`.  `Model/Utf8.lean` mirrors those
+byte-level functions; the theorems below say that on the encoding of ANY text they compute exactly the
+character-level result the rest of the model (and of the proofs) uses — for every text, every index, every
+replacement (empty, one or many characters of any width). -/
+
+/-- measuring: the number of non-continuation bytes (`chars().count()`) is the number of characters -/
+theorem C13_bytes_count_characters (cs : Text) : Utf8.countChars (Utf8.encode cs) = cs.length := Utf8.U1 cs
+
+/-- locating: scanning lead bytes (`char_indices().nth(i)`, `len_utf8`) finds exactly the byte span of the
+    i-th CHARACTER — offset = the bytes of the i characters before it, width = its own encoding — and
+    nothing when there is no i-th character -/
+theorem C13_bytes_locate_character (cs : Text) (i off w : Nat) :
+    Utf8.nthSpan (Utf8.encode cs) i = some (off, w) ↔
+      ∃ h : i < cs.length, off = (Utf8.encode (cs.take i)).length ∧ w = (Utf8.encodeChar cs[i]).length := Utf8.U2 cs i off w
+
+/-- reading: `index_get_string` on the bytes is the model's character-level read: the one-character text at the
+    normalised index (negative from the back), or the index error -/
+theorem C13_bytes_read_is_character_read (cs : Text) (idx : Int) :
+    Utf8.byteIndexGet (Utf8.encode cs) idx =
+      match normIndex cs.length idx with
+      | some k => .ok (Utf8.encode [cs.getD k ' '])
+      | none => .error .index := Utf8.U4_get cs idx
+
+/-- writing: `index_set_string` on the bytes (`replace_range` over the located span) is the model's
+    character-level replacement `take k ++ replacement ++ drop (k+1)`; an index outside the text is the index error
+    and (`C13_bytes_write_error_order`) leaves no trace -/
+theorem C13_bytes_write_is_character_write (cs rs : Text) (idx : Int) :
+    Utf8.byteIndexSet (Utf8.encode cs) idx (Utf8.encode rs) =
+      match normIndex cs.length idx with
+      | some k => .ok (Utf8.encode (cs.take k ++ rs ++ cs.drop (k + 1)))
+      | none => .error .index := Utf8.U4_set cs rs idx
+
+/-- the MACHINE MODEL's string read, as the proofs of C01/C13 use it, IS the byte-level function applied to the
+    bytes of the stored text (the result decoded into the new string box) -/
+theorem C13_machine_read_is_byte_read (a : Nat) (i : Int) (m : Mem) :
+    indexGet (.str a) (.int i) m =
+      match Utf8.byteIndexGet (Utf8.encode (m.heap.strAt a)) i with
+      | .ok bs =>
+        match Utf8.decode bs with
+        | some t => let (m', v) := m.allocStr t; .ok (v, m')
+        | none => .error .fuel
+      | .error e => .error e := Utf8.indexGet_str_bytes a i m
+
+/-- the MACHINE MODEL's string write IS the byte-level `index_set_string` (bounds first, then the type of the
+    value, then `replace_range`) on the bytes of the stored text -/
+theorem C13_machine_write_is_byte_write (a : Nat) (i : Int) (value : Value) (m : Mem) :
+    indexSet (.str a) (.int i) value m =
+      match Utf8.byteIndexSetV (Utf8.encode (m.heap.strAt a)) i (Utf8.valueBytes m.heap value) with
+      | .ok bs =>
+        match Utf8.decode bs with
+        | some t => .ok (value, { m with heap := m.heap.set a (.str t) })
+        | none => .error .fuel
+      | .error e => .error e := Utf8.indexSet_str_bytes a i value m
+
+/-- non-vacuity / TEST (a sample, not the claim): a text with 1-, 2-, 3- and 4-byte characters -/
+example : (match Utf8.byteIndexSet (Utf8.encode ['a', 'é', '€', '😀', 'b']) (-2) (Utf8.encode ['x', 'é']) with
+    | .ok bs => bs == Utf8.encode ['a', 'é', '€', 'x', 'é', 'b'] | .error _ => false) = true := by decide
 
 end C13
 end Nl
